@@ -168,7 +168,14 @@ namespace awkward {
   void
   ToJsonString::complex(std::complex<double> x) {
     if (complex_real_string_ != nullptr  &&  complex_imag_string_ != nullptr) {
-      impl_->complex(x, complex_real_string_, complex_imag_string_);
+      // through real(), so that nan_string and the infinity strings apply to
+      // the two parts as they do to any other number
+      beginrecord();
+      field(complex_real_string_);
+      real(x.real());
+      field(complex_imag_string_);
+      real(x.imag());
+      endrecord();
     }
     else {
       throw std::invalid_argument(
@@ -315,7 +322,14 @@ namespace awkward {
   void
   ToJsonPrettyString::complex(std::complex<double> x) {
     if (complex_real_string_ != nullptr  &&  complex_imag_string_ != nullptr) {
-      impl_->complex(x, complex_real_string_, complex_imag_string_);
+      // through real(), so that nan_string and the infinity strings apply to
+      // the two parts as they do to any other number
+      beginrecord();
+      field(complex_real_string_);
+      real(x.real());
+      field(complex_imag_string_);
+      real(x.imag());
+      endrecord();
     }
     else {
       throw std::invalid_argument(
@@ -466,7 +480,14 @@ namespace awkward {
   void
   ToJsonFile::complex(std::complex<double> x) {
     if (complex_real_string_ != nullptr  &&  complex_imag_string_ != nullptr) {
-      impl_->complex(x, complex_real_string_, complex_imag_string_);
+      // through real(), so that nan_string and the infinity strings apply to
+      // the two parts as they do to any other number
+      beginrecord();
+      field(complex_real_string_);
+      real(x.real());
+      field(complex_imag_string_);
+      real(x.imag());
+      endrecord();
     }
     else {
       throw std::invalid_argument(
@@ -614,7 +635,14 @@ namespace awkward {
   void
   ToJsonPrettyFile::complex(std::complex<double> x) {
     if (complex_real_string_ != nullptr  &&  complex_imag_string_ != nullptr) {
-      impl_->complex(x, complex_real_string_, complex_imag_string_);
+      // through real(), so that nan_string and the infinity strings apply to
+      // the two parts as they do to any other number
+      beginrecord();
+      field(complex_real_string_);
+      real(x.real());
+      field(complex_imag_string_);
+      real(x.imag());
+      endrecord();
     }
     else {
       throw std::invalid_argument(
